@@ -149,11 +149,18 @@ def _run_query(q, gs, engs, specs):
         return engs[q[1]].get_mappings(gs[q[2]], gs[q[3]])
     if k == "sub":
         return bool(_sub_call(q, gs))
+    pos = (q[1] + q[2]) % 2 == 1          # helpers called with every option POSITIONALLY for odd index sums, by keyword otherwise
     if k == "giso":
+        if pos:
+            return bool(GM.graph_isomorphism(gs[q[1]], gs[q[2]], None, None, True))
         return bool(GM.graph_isomorphism(gs[q[1]], gs[q[2]], use_defaults=True))
     if k == "giso0":                      # use_defaults=False, no matchers: structure only
+        if pos:
+            return bool(GM.graph_isomorphism(gs[q[1]], gs[q[2]], None, None, False))
         return bool(GM.graph_isomorphism(gs[q[1]], gs[q[2]]))
     if k == "fgi":                        # ["fgi", i, j, use_defaults, fast_invariant_check] -> mapping or None ({} for two empty graphs)
+        if pos:
+            return GM.find_graph_isomorphism(gs[q[1]], gs[q[2]], None, None, q[3], q[4])
         return GM.find_graph_isomorphism(gs[q[1]], gs[q[2]], use_defaults=q[3], fast_invariant_check=q[4])
     raise AssertionError(k)
 
